@@ -24,6 +24,7 @@ use varpulis_cluster::pipeline_group::{
 use varpulis_cluster::worker::{HeartbeatRequest, WorkerCapacity, WorkerId, WorkerNode, WorkerStatus};
 use varpulis_cluster::ClusterError;
 
+mod api_mode;
 mod route;
 
 pub static RT: OnceLock<tokio::runtime::Runtime> = OnceLock::new();
@@ -32,7 +33,7 @@ pub static BATCHLOG: Mutex<Vec<(String, J)>> = Mutex::new(Vec::new());
 pub static NEXT_ID: Mutex<u64> = Mutex::new(0);
 pub static PORT: OnceLock<u16> = OnceLock::new();
 
-const UNIT_MS: u64 = 1000;
+pub const UNIT_MS: u64 = 1000;
 
 fn start_stub() {
     use warp::Filter;
@@ -72,7 +73,7 @@ fn start_stub() {
 pub fn wname(id: u64) -> String {
     format!("w{}", id)
 }
-fn wnum(id: &WorkerId) -> u64 {
+pub fn wnum(id: &WorkerId) -> u64 {
     id.0[1..].parse().unwrap()
 }
 /// "p<l>" -> 16*l ; "p<l>#k" -> 16*l + k + 1
@@ -83,7 +84,7 @@ pub fn pcode(name: &str) -> u64 {
         None => 16 * body.parse::<u64>().unwrap(),
     }
 }
-fn pname(code: u64) -> String {
+pub fn pname(code: u64) -> String {
     if code % 16 == 0 {
         format!("p{}", code / 16)
     } else {
@@ -109,94 +110,108 @@ impl Sys {
         self.gids.get(g as usize).cloned().unwrap_or_else(|| format!("no-such-group-{}", g))
     }
     fn reanchor(&mut self) {
-        let now = Instant::now();
-        for w in self.c.workers.values_mut() {
-            let age = now.saturating_duration_since(w.last_heartbeat);
-            let k = (age.as_millis() as u64 + UNIT_MS / 2) / UNIT_MS;
-            w.last_heartbeat = now.checked_sub(Duration::from_millis(k * UNIT_MS)).expect("machine uptime too small for the virtual clock");
-        }
+        reanchor(&mut self.c)
     }
     fn word(&self) -> Vec<u64> {
-        self.c.workers.keys().map(wnum).collect()
+        word_of(&self.c)
     }
     fn pord(&self) -> Vec<(u64, u64)> {
-        let mut v = Vec::new();
-        for (gid, g) in &self.c.pipeline_groups {
-            for (pn, _) in &g.placements {
-                v.push((self.gidx[gid] as u64, pcode(pn)));
-            }
-        }
-        v
+        pord_of(&self.c, &self.gidx)
     }
     fn state(&self) -> J {
-        let now = Instant::now();
-        let mut ws: Vec<(u64, J)> = self
-            .c
-            .workers
-            .iter()
-            .map(|(id, w)| {
-                let age = (now.saturating_duration_since(w.last_heartbeat).as_millis() as u64 + UNIT_MS / 2) / UNIT_MS;
-                let st = match w.status {
-                    WorkerStatus::Registering => "G",
-                    WorkerStatus::Ready => "R",
-                    WorkerStatus::Unhealthy => "U",
-                    WorkerStatus::Draining => "D",
-                };
-                (
-                    wnum(id),
-                    json!({"id": wnum(id), "idfield": wnum(&w.id), "st": st, "run": w.capacity.pipelines_running, "max": w.capacity.max_pipelines,
-                           "cores": w.capacity.cpu_cores, "asg": w.assigned_pipelines.iter().map(|p| pcode(p)).collect::<Vec<_>>(), "age": age,
-                           "available": w.is_available()}),
-                )
-            })
-            .collect();
-        ws.sort_by_key(|x| x.0);
-        let mut gs: Vec<(usize, J)> = self
-            .c
-            .pipeline_groups
-            .iter()
-            .map(|(gid, g)| {
-                let st = match g.status {
-                    GroupStatus::Deploying => "D",
-                    GroupStatus::Running => "R",
-                    GroupStatus::PartiallyRunning => "P",
-                    GroupStatus::Failed => "F",
-                    GroupStatus::TornDown => "T",
-                };
-                let mut pls: Vec<(u64, J)> = g
-                    .placements
-                    .iter()
-                    .map(|(pn, d)| {
-                        let ds = match d.status {
-                            PipelineDeploymentStatus::Running => "R",
-                            PipelineDeploymentStatus::Failed => "F",
-                            PipelineDeploymentStatus::Deploying => "D",
-                            PipelineDeploymentStatus::Stopped => "S",
-                        };
-                        (pcode(pn), json!({"name": pcode(pn), "w": wnum(&d.worker_id), "st": ds, "hasid": !d.pipeline_id.is_empty(), "epoch": d.epoch}))
-                    })
-                    .collect();
-                pls.sort_by_key(|x| x.0);
-                let i = self.gidx[gid];
-                (i, json!({"g": i, "idfield_ok": g.id == *gid, "st": st, "pl": pls.into_iter().map(|x| x.1).collect::<Vec<_>>()}))
-            })
-            .collect();
-        gs.sort_by_key(|x| x.0);
-        json!({"workers": ws.into_iter().map(|x| x.1).collect::<Vec<_>>(), "groups": gs.into_iter().map(|x| x.1).collect::<Vec<_>>()})
+        state_of(&self.c, &self.gidx)
     }
 }
 
-fn bools(v: &J) -> Vec<bool> {
+pub fn reanchor(c: &mut Coordinator) {
+    let now = Instant::now();
+    for w in c.workers.values_mut() {
+        let age = now.saturating_duration_since(w.last_heartbeat);
+        let k = (age.as_millis() as u64 + UNIT_MS / 2) / UNIT_MS;
+        w.last_heartbeat = now.checked_sub(Duration::from_millis(k * UNIT_MS)).expect("machine uptime too small for the virtual clock");
+    }
+}
+
+pub fn word_of(c: &Coordinator) -> Vec<u64> {
+    c.workers.keys().map(wnum).collect()
+}
+
+pub fn pord_of(c: &Coordinator, gidx: &HashMap<String, usize>) -> Vec<(u64, u64)> {
+    let mut v = Vec::new();
+    for (gid, g) in &c.pipeline_groups {
+        for (pn, _) in &g.placements {
+            v.push((gidx[gid] as u64, pcode(pn)));
+        }
+    }
+    v
+}
+
+pub fn state_of(c: &Coordinator, gidx: &HashMap<String, usize>) -> J {
+    let now = Instant::now();
+    let mut ws: Vec<(u64, J)> = c
+        .workers
+        .iter()
+        .map(|(id, w)| {
+            let age = (now.saturating_duration_since(w.last_heartbeat).as_millis() as u64 + UNIT_MS / 2) / UNIT_MS;
+            let st = match w.status {
+                WorkerStatus::Registering => "G",
+                WorkerStatus::Ready => "R",
+                WorkerStatus::Unhealthy => "U",
+                WorkerStatus::Draining => "D",
+            };
+            (
+                wnum(id),
+                json!({"id": wnum(id), "idfield": wnum(&w.id), "st": st, "run": w.capacity.pipelines_running, "max": w.capacity.max_pipelines,
+                       "cores": w.capacity.cpu_cores, "asg": w.assigned_pipelines.iter().map(|p| pcode(p)).collect::<Vec<_>>(), "age": age,
+                       "available": w.is_available()}),
+            )
+        })
+        .collect();
+    ws.sort_by_key(|x| x.0);
+    let mut gs: Vec<(usize, J)> = c
+        .pipeline_groups
+        .iter()
+        .map(|(gid, g)| {
+            let st = match g.status {
+                GroupStatus::Deploying => "D",
+                GroupStatus::Running => "R",
+                GroupStatus::PartiallyRunning => "P",
+                GroupStatus::Failed => "F",
+                GroupStatus::TornDown => "T",
+            };
+            let mut pls: Vec<(u64, J)> = g
+                .placements
+                .iter()
+                .map(|(pn, d)| {
+                    let ds = match d.status {
+                        PipelineDeploymentStatus::Running => "R",
+                        PipelineDeploymentStatus::Failed => "F",
+                        PipelineDeploymentStatus::Deploying => "D",
+                        PipelineDeploymentStatus::Stopped => "S",
+                    };
+                    (pcode(pn), json!({"name": pcode(pn), "w": wnum(&d.worker_id), "st": ds, "hasid": !d.pipeline_id.is_empty(), "epoch": d.epoch}))
+                })
+                .collect();
+            pls.sort_by_key(|x| x.0);
+            let i = gidx[gid];
+            (i, json!({"g": i, "idfield_ok": g.id == *gid, "st": st, "pl": pls.into_iter().map(|x| x.1).collect::<Vec<_>>()}))
+        })
+        .collect();
+    gs.sort_by_key(|x| x.0);
+    json!({"workers": ws.into_iter().map(|x| x.1).collect::<Vec<_>>(), "groups": gs.into_iter().map(|x| x.1).collect::<Vec<_>>()})
+}
+
+pub fn bools(v: &J) -> Vec<bool> {
     v.as_array().map(|a| a.iter().map(|b| b.as_bool().unwrap()).collect()).unwrap_or_default()
 }
 
-fn set_script(v: &J) {
+pub fn set_script(v: &J) {
     let mut s = SCRIPT.lock().unwrap();
     s.clear();
     s.extend(bools(v));
 }
 
-fn spec_of(v: &J) -> PipelineGroupSpec {
+pub fn spec_of(v: &J) -> PipelineGroupSpec {
     PipelineGroupSpec {
         name: "grp".into(),
         pipelines: v
@@ -466,6 +481,7 @@ fn main() {
     RT.set(tokio::runtime::Builder::new_multi_thread().worker_threads(2).enable_all().build().unwrap()).ok();
     start_stub();
     vp_common::serve(|req| match req["kind"].as_str() {
+        Some("coord") if req["via"].as_str() == Some("api") => api_mode::run_coord_api(req),
         Some("coord") => run_coord(req),
         Some("route") => route::run_route(req),
         Some("hash") => route::run_hash(req),
